@@ -1,18 +1,320 @@
-import Scico.Model.StepSize
-namespace Scico.Props.C16
-open Scico.StepSize
+/-
+  Property C16 — PGM step-size policies return the documented, usable step sizes.
+  ONLY property theorems here (helpers: `Scico.Proofs.StepSize`, `Scico.Proofs.StepSizeEnv`).
 
-/-- placeholder while the harness is brought up (replaced below) -/
-theorem C16_search_none_iff {S β : Type} [Mul S] (γu : S) (trial : Nat → S → β) (ok : S → β → Bool) (fuel it : Nat) (L : S) :
-    searchLoop γu trial ok fuel it L = none ↔ fuel = 0 := by
-  induction fuel generalizing it L with
-  | zero => simp [searchLoop]
-  | succ n ih =>
-    simp only [searchLoop]
-    split
-    · simp
-    · cases n with
-      | zero => simp
-      | succ m => simp [ih]
+  Scalars are the IEEE-extended numbers `XR K` over an arbitrary linear ordered field `K`
+  (`fin a | pinf | ninf | nan`, division by an exact zero, NaN-false comparisons), so that
+  "finite and strictly positive" (`PosFin`) is a statement with content; the control-flow theorems
+  (`C16_linesearch_*`, `C16_apgm_point_*`) hold for every scalar type, `Float` included.
+-/
+import Scico.Proofs.StepSizeEnv
+import Mathlib.Analysis.InnerProductSpace.Basic
+
+set_option linter.unusedSectionVars false
+
+namespace Scico.Props.C16
+open Scico Scico.StepSize Scico.StepSize.XR
+
+variable {K : Type} [Field K] [LinearOrder K] [IsStrictOrderedRing K]
+
+/-! ### Barzilai–Borwein -/
+
+/-- `BBStepSize.update` (after the first call) returns the ratio `num/den` exactly when that
+    ratio is a finite positive number, the previous `L` otherwise — for all inputs, `±inf` and
+    NaN included. -/
+theorem C16_bb_ratio (Lprev xg gg : XR K) [Decidable (PosFin (gg / xg))] :
+    bbRule Lprev xg gg = if PosFin (gg / xg) then gg / xg else Lprev :=
+  bbRule_eq Lprev xg gg
+
+/-- For finite inner products `xg = Re⟨Δx,Δg⟩`, `gg = Re⟨Δg,Δg⟩ ≥ 0`: the documented ratio
+    `⟨Δg,Δg⟩/⟨Δx,Δg⟩` if `⟨Δx,Δg⟩ > 0` and `Δg ≠ 0`; the previous value for orthogonal differences
+    (`xg = 0`, where the quotient is `+inf`), repeated iterates (`0/0`), negative curvature. -/
+theorem C16_bb_ratio_fin (Lprev : XR K) (xg gg : K) (hgg : 0 ≤ gg) :
+    bbRule Lprev (fin xg) (fin gg) = if 0 < xg ∧ 0 < gg then fin (gg / xg) else Lprev := by
+  rw [bbRule_fin]
+  by_cases h : 0 < xg ∧ 0 < gg
+  · rw [if_pos h, if_pos (Or.inl ⟨h.2, h.1⟩)]
+  · rw [if_neg h, if_neg]
+    rintro (⟨h1, h2⟩ | ⟨h1, _⟩)
+    · exact h ⟨h2, h1⟩
+    · exact absurd h1 (not_lt.2 hgg)
+
+section inner
+
+variable {E : Type} [NormedAddCommGroup E] [InnerProductSpace ℝ E]
+
+/-- square roots of the idealised scalars (only the robust line search takes one) -/
+noncomputable local instance : HasSqrt ℝ := ⟨Real.sqrt⟩
+
+/-- the solver's view of a problem on a real inner-product space (`ℝⁿ`; `ℂⁿ` with `Re⟨·,·⟩`;
+    block arrays = product spaces): exact arithmetic embedded in the extended reals -/
+noncomputable def envOfSpace (f : E → ℝ) (grad : E → E) (prox : E → XR ℝ → E)
+    (smul : XR ℝ → E → E) : Env E (XR ℝ) where
+  f := fun x => fin (f x)
+  grad := grad
+  prox := prox
+  add := (· + ·)
+  sub := (· - ·)
+  smul := smul
+  reInner := fun a b => fin (inner ℝ a b)
+  norm := fun a => fin ‖a‖
+
+open Classical in
+/-- `BBStepSize.update(v)` on a real inner-product space returns
+    `‖Δg‖² / ⟨Δx, Δg⟩` with `Δx = v − x_prev`, `Δg = ∇f(v) − ∇f(x_prev)` when `⟨Δx,Δg⟩ > 0` and
+    `Δg ≠ 0`, and the solver's current `L` otherwise; it stores `(v, ∇f(v))`. -/
+theorem C16_bb_ratio_inner (f : E → ℝ) (grad : E → E) (prox : E → XR ℝ → E) (smul : XR ℝ → E → E)
+    (x v xp : E) (L : XR ℝ) (ps : PolState E (XR ℝ)) (hprev : ps.prev = some (xp, grad xp)) :
+    update (envOfSpace f grad prox smul) .bb x L ps v =
+      some (if 0 < inner ℝ (v - xp) (grad v - grad xp) ∧ grad v - grad xp ≠ 0
+              then fin (‖grad v - grad xp‖ ^ 2 / inner ℝ (v - xp) (grad v - grad xp)) else L,
+            { ps with prev := some (v, grad v) }) := by
+  simp only [update, hprev, envOfSpace]
+  rw [C16_bb_ratio_fin _ _ _ real_inner_self_nonneg, real_inner_self_eq_norm_sq]
+  congr 2
+  have key : (0 < ‖grad v - grad xp‖ ^ 2) ↔ grad v - grad xp ≠ 0 := by
+    rw [← norm_pos_iff]
+    constructor
+    · intro h
+      by_contra hn
+      have h0 : ‖grad v - grad xp‖ = 0 := le_antisymm (not_lt.1 hn) (norm_nonneg _)
+      rw [h0] at h
+      norm_num at h
+    · intro h; positivity
+  by_cases hc : 0 < inner ℝ (v - xp) (grad v - grad xp) ∧ grad v - grad xp ≠ 0
+  · rw [if_pos hc, if_pos ⟨hc.1, key.2 hc.2⟩]
+  · rw [if_neg hc, if_neg (fun h => hc ⟨h.1, key.1 h.2⟩)]
+
+end inner
+
+/-! ### adaptive Barzilai–Borwein -/
+
+/-- When the three inner products are finite and positive, `AdaptiveBBStepSize.update` returns
+    `1/α` for the documented `α = α_BB2 if α_BB2/α_BB1 < κ else α_BB1`
+    (`α_BB1 = ⟨Δx,Δx⟩/⟨Δx,Δg⟩`, `α_BB2 = ⟨Δx,Δg⟩/⟨Δg,Δg⟩`) and remembers `1/α_BB1`, `1/α_BB2`. -/
+theorem C16_adaptive_bb (k : K) (Lprev : XR K) (m1 m2 : Option (XR K)) {xx xg gg : K}
+    (hxx : 0 < xx) (hxg : 0 < xg) (hgg : 0 < gg) :
+    abbRule (fin k) Lprev m1 m2 (fin xx) (fin xg) (fin gg) =
+      (fin (1 / abbAlpha k xx xg gg), some (fin (xg / xx)), some (fin (gg / xg))) :=
+  abbRule_documented k Lprev m1 m2 hxx hxg hgg
+
+/-- In general (any inputs): each of the two estimates is the freshly computed ratio if usable
+    (finite, positive), the remembered one otherwise; the `κ` rule is applied when both exist, and the
+    previous `L` is kept when one of them has never been usable. -/
+theorem C16_adaptive_bb_rule (κ Lprev : XR K) (m1 m2 : Option (XR K)) (xx xg gg : XR K) :
+    abbRule κ Lprev m1 m2 xx xg gg =
+      (abbSelect κ Lprev (keep m1 (xg / xx)) (keep m2 (gg / xg)), keep m1 (xg / xx), keep m2 (gg / xg)) :=
+  abbRule_eq κ Lprev m1 m2 xx xg gg
+
+/-- The memory after any history of calls holds the most recent usable value of each ratio
+    (`none` if there never was one). -/
+theorem C16_adaptive_bb_memory (h : List (XR K × XR K × XR K)) :
+    abbMem (none, none) h =
+      (lastUsable (h.map fun c => c.2.1 / c.1), lastUsable (h.map fun c => c.2.2 / c.2.1)) := by
+  rw [abbMem_eq]
+  congr 1
+  · cases lastUsable (h.map fun c => c.2.1 / c.1) <;> rfl
+  · cases lastUsable (h.map fun c => c.2.2 / c.2.1) <;> rfl
+
+/-! ### every policy keeps `L` finite and positive -/
+
+section posfin
+
+variable {V : Type} [HasSqrt K]
+
+/-- `PGM`: for every problem (any `f`, `∇f`, prox, inner product — even returning `inf`/NaN), every
+    policy with `γ_u, γ_d` finite positive, every `κ`, every `maxiter`, every number of steps:
+    if `L₀` is finite and positive then so is `L` after every step that completes. -/
+theorem C16_positive_finite_pgm (env : Env V (XR K)) (pol : Policy (XR K)) (hpol : PolOK pol)
+    (x0 : V) (L0 inf : XR K) (hL0 : PosFin L0) (k : Nat) (s : PGMState V (XR K))
+    (h : iterate (pgmStep env pol) k (PGMState.init x0 L0 inf) = some s) : PosFin s.L :=
+  (iterate_inv _ (fun _ _ hs hstep => pgmStep_inv env pol hpol hs hstep) k _ _ (init_inv x0 hL0 inf) h).1
+
+/-- the same for `AcceleratedPGM` -/
+theorem C16_positive_finite_apgm (env : Env V (XR K)) (pol : Policy (XR K)) (hpol : PolOK pol)
+    (x0 : V) (L0 inf : XR K) (hL0 : PosFin L0) (k : Nat) (s : PGMState V (XR K))
+    (h : iterate (apgmStep env pol) k (PGMState.init x0 L0 inf) = some s) : PosFin s.L :=
+  (iterate_inv _ (fun _ _ hs hstep => apgmStep_inv env pol hpol hs hstep) k _ _ (init_inv x0 hL0 inf) h).1
+
+/-- a single `update` call of any policy, from any policy state whose memory is usable -/
+theorem C16_positive_finite_update (env : Env V (XR K)) (pol : Policy (XR K)) (hpol : PolOK pol) (x v : V)
+    (L : XR K) (ps : PolState V (XR K)) (hL : PosFin L) (h1 : OptPos ps.l1) (h2 : OptPos ps.l2)
+    (L' : XR K) (ps' : PolState V (XR K)) (h : update env pol x L ps v = some (L', ps')) : PosFin L' :=
+  (update_posFin env pol hpol x ps v hL h1 h2 h).1
+
+/-- the only call that does not complete is a robust line search with `maxiter = 0` -/
+theorem C16_update_raises_iff (env : Env V (XR K)) (pol : Policy (XR K)) (x v : V) (L : XR K)
+    (ps : PolState V (XR K)) :
+    update env pol x L ps v = none ↔ ∃ γd γu, pol = .rls γd γu 0 := by
+  cases pol with
+  | rls γd γu m =>
+    rw [update_rls_none_iff]
+    constructor
+    · rintro rfl; exact ⟨γd, γu, rfl⟩
+    · rintro ⟨_, _, h⟩; cases h; rfl
+  | base => simp [update]
+  | bb => cases hp : ps.prev <;> simp [update, hp]
+  | abb κ => cases hp : ps.prev <;> simp [update, hp]
+  | ls γu m =>
+    simp only [update]
+    split <;> simp
+
+end posfin
+
+/-! ### line searches -/
+
+section search
+
+variable {V S : Type} [Zero S] [One S] [Add S] [Sub S] [Mul S] [Div S] [LE S] [DecidableLE S] [LT S]
+  [DecidableLT S] [IEEE S] [HasSqrt S]
+
+/-- The search loop returns `L·γ_u^k` for the least `k < maxiter` whose trial is accepted — the last
+    value tried (`k = maxiter − 1`) if none is — together with the data computed *with that value*,
+    after `k+1` trials.  (Any scalar type; induction on the fuel.) -/
+theorem C16_linesearch_first {β : Type} (γu : S) (trial : Nat → S → β) (ok : S → β → Bool)
+    (maxiter : Nat) (L L' : S) (b : β) (n : Nat)
+    (h : searchLoop γu trial ok maxiter 0 L = some (L', b, n)) :
+    ∃ k, k < maxiter ∧ n = k + 1 ∧ L' = geom L γu k ∧ b = trial k L' ∧
+      (∀ j, j < k → ok (geom L γu j) (trial j (geom L γu j)) = false) ∧
+      (ok L' b = true ∨ k + 1 = maxiter) := by
+  obtain ⟨k, h1, h2, h3, h4, h5, h6⟩ := searchLoop_spec γu trial ok maxiter 0 L L' b n h
+  refine ⟨k, h1, by omega, h3, by simpa using h4, ?_, h6⟩
+  intro j hj
+  simpa using h5 j hj
+
+/-- over the extended reals the returned value is the finite number `L₀·γ_u^k` -/
+theorem C16_linesearch_value (l0 g : K) (k : Nat) : geom (fin l0 : XR K) (fin g) k = fin (l0 * g ^ k) :=
+  geom_fin l0 g k
+
+/-- `LineSearchStepSize.update(v)`: `L·γ_u^k` for the least `k < maxiter` with
+    `f(z) ≤ f̂(z, v)` at `z = x_step(v, L·γ_u^k)`, the last value tried if there is none
+    (`maxiter = 0`: `L` unchanged, nothing tried). -/
+theorem C16_linesearch_update (env : Env V S) (γu : S) (maxiter : Nat) (x : V) (L : S)
+    (ps : PolState V S) (v : V) (L' : S) (ps' : PolState V S)
+    (h : update env (.ls γu maxiter) x L ps v = some (L', ps')) :
+    (maxiter = 0 ∧ L' = L ∧ ps'.tried = 0) ∨
+    ∃ k, k < maxiter ∧ L' = geom L γu k ∧ ps'.tried = k + 1 ∧
+      (∀ j, j < k → ¬ Accept env v (geom L γu j)) ∧ (Accept env v L' ∨ k + 1 = maxiter) :=
+  update_ls env γu maxiter x L ps v L' ps' h
+
+/-- the iterate `PGM.step` produces with a line search is the candidate that was tested with the
+    returned `L` -/
+theorem C16_linesearch_candidate (env : Env V S) (pol : Policy S) (s s' : PGMState V S)
+    (h : pgmStep env pol s = some s') : s'.x = xstep env s.x s'.L := by
+  unfold pgmStep at h
+  split at h
+  · cases h
+  · simp only [Option.some.injEq] at h
+    subst h
+    rfl
+
+/-- `RobustLineSearchStepSize.update`: starts from `γ_d·L`; returns `γ_d·L·γ_u^k` for the least
+    accepted `k < maxiter` (last tried otherwise); the candidate `Z` handed back, the new `T_k` and the
+    update of the auxiliary sequence `Zrb` are all computed with the returned value. -/
+theorem C16_linesearch_robust (env : Env V S) (γd γu : S) (maxiter : Nat) (x : V) (L : S)
+    (ps : PolState V S) (v : V) (L' : S) (ps' : PolState V S)
+    (h : update env (.rls γd γu maxiter) x L ps v = some (L', ps')) :
+    ∃ k, k < maxiter ∧ L' = geom (L * γd) γu k ∧ ps'.tried = k + 1 ∧
+      (∀ j, j < k → ¬ AcceptR env x ps.Tk (zrbOf ps x) (geom (L * γd) γu j)) ∧
+      (AcceptR env x ps.Tk (zrbOf ps x) L' ∨ k + 1 = maxiter) ∧
+      ps'.Z = some (rlsTrial env x ps.Tk (zrbOf ps x) L').2.2.2 ∧
+      ps'.Tk = (rlsTrial env x ps.Tk (zrbOf ps x) L').2.1 ∧
+      ps'.Zrb = some (env.add (zrbOf ps x) (env.smul ((rlsTrial env x ps.Tk (zrbOf ps x) L').1 * L')
+        (env.sub (rlsTrial env x ps.Tk (zrbOf ps x) L').2.2.2 (rlsTrial env x ps.Tk (zrbOf ps x) L').2.2.1))) :=
+  update_rls env γd γu maxiter x L ps v L' ps' h (zrbOf ps x) rfl
+
+/-! ### which point each policy is evaluated at in accelerated PGM -/
+
+/-- Barzilai–Borwein policies see the *iterate* `x_k` (differences of successive iterates), the
+    gradient step is then taken from the extrapolation `v_k` with the new `L`. -/
+theorem C16_apgm_point_bb (env : Env V S) (pol : Policy S) (hpol : pol.isBB = true) (s s' : PGMState V S)
+    (h : apgmStep env pol s = some s') :
+    update env pol s.x s.L s.ps s.x = some (s'.L, s'.ps) ∧ s'.x = xstep env s.v s'.L := by
+  unfold apgmStep at h
+  simp only [hpol, if_true] at h
+  split at h
+  · cases h
+  · rename_i L ps hu
+    cases pol with
+    | rls _ _ _ => simp [Policy.isBB] at hpol
+    | base => simp [Policy.isBB] at hpol
+    | ls _ _ => simp [Policy.isBB] at hpol
+    | bb => simp only [Option.some.injEq] at h; subst h; exact ⟨hu, rfl⟩
+    | abb κ => simp only [Option.some.injEq] at h; subst h; exact ⟨hu, rfl⟩
+
+/-- The base policy and the line search see the *extrapolation* `v_k`; the new iterate is
+    `x_step(v_k, L)` (for the line search: the candidate tested with the returned `L`), and the
+    extrapolation is `v' = x' + ((t−1)/t')(x' − x)` with `t' = (1+√(1+4t²))/2`. -/
+theorem C16_apgm_point_v (env : Env V S) (pol : Policy S) (hpol : pol = .base ∨ ∃ γu m, pol = .ls γu m)
+    (s s' : PGMState V S) (h : apgmStep env pol s = some s') :
+    update env pol s.x s.L s.ps s.v = some (s'.L, s'.ps) ∧ s'.x = xstep env s.v s'.L ∧
+      s'.t = half * (1 + sqrt (1 + four * (s.t * s.t))) ∧
+      s'.v = env.add s'.x (env.smul ((s.t - 1) / s'.t) (env.sub s'.x s.x)) := by
+  unfold apgmStep at h
+  have hbb : pol.isBB = false := by
+    rcases hpol with rfl | ⟨_, _, rfl⟩ <;> rfl
+  simp only [hbb, Bool.false_eq_true, if_false] at h
+  split at h
+  · cases h
+  · rename_i L ps hu
+    rcases hpol with rfl | ⟨γu, m, rfl⟩
+    · simp only [Option.some.injEq] at h; subst h; exact ⟨hu, rfl, rfl, rfl⟩
+    · simp only [Option.some.injEq] at h; subst h; exact ⟨hu, rfl, rfl, rfl⟩
+
+/-- The robust line search is called with `v_k` but computes its own auxiliary point; the new
+    iterate is the candidate `Z` it hands back, and `v`, `t` are left untouched. -/
+theorem C16_apgm_point_robust (env : Env V S) (γd γu : S) (m : Nat) (s s' : PGMState V S)
+    (h : apgmStep env (.rls γd γu m) s = some s') :
+    update env (.rls γd γu m) s.x s.L s.ps s.v = some (s'.L, s'.ps) ∧ s'.ps.Z = some s'.x ∧
+      s'.v = s.v ∧ s'.t = s.t := by
+  unfold apgmStep at h
+  simp only [Policy.isBB, Bool.false_eq_true, if_false] at h
+  split at h
+  · cases h
+  · rename_i L ps hu
+    split at h
+    · cases h
+    · rename_i z hz
+      simp only [Option.some.injEq] at h
+      subst h
+      exact ⟨hu, hz, rfl, rfl⟩
+
+end search
+
+/-! ### non-vacuity: concrete instances over `ℚ` -/
+
+-- orthogonal differences, `Re⟨Δx,Δg⟩ = 0 < ‖Δg‖²`: the quotient is `+inf`, the previous value is kept
+example : bbRule (fin 1 : XR ℚ) (fin 0) (fin 2) = fin 1 := by
+  rw [C16_bb_ratio_fin _ _ _ (by norm_num)]; norm_num
+-- positive curvature: the documented ratio
+example : bbRule (fin 1 : XR ℚ) (fin 2) (fin 6) = fin 3 := by
+  rw [C16_bb_ratio_fin _ _ _ (by norm_num)]; norm_num
+-- repeated iterate (0/0) and negative curvature
+example : bbRule (fin 5 : XR ℚ) (fin 0) (fin 0) = fin 5 := by
+  rw [C16_bb_ratio_fin _ _ _ (by norm_num)]; norm_num
+example : bbRule (fin 5 : XR ℚ) (fin (-1)) (fin 2) = fin 5 := by
+  rw [C16_bb_ratio_fin _ _ _ (by norm_num)]; norm_num
+-- an infinite numerator is not taken either
+example : bbRule (fin 5 : XR ℚ) (fin 1) pinf = fin 5 := by
+  classical
+  rw [C16_bb_ratio]
+  have : ¬ PosFin ((pinf : XR ℚ) / fin 1) := by
+    have h : (pinf : XR ℚ) / fin 1 = pinf := by simp [XR.div]
+    rw [h]; exact not_posFin_pinf
+  rw [if_neg this]
+-- adaptive rule: α_BB1 = 1/2, α_BB2 = 1/4, ratio 1/2 < κ = 3/4 → α = α_BB2, L = 4
+example : abbRule (fin (3/4) : XR ℚ) (fin 1) none none (fin 1) (fin 2) (fin 8) =
+    (fin 4, some (fin 2), some (fin 4)) := by
+  rw [C16_adaptive_bb _ _ _ _ (by norm_num) (by norm_num) (by norm_num)]
+  norm_num [abbAlpha]
+-- the hypotheses of the positivity theorem are satisfiable: default parameters of both line searches
+example : PolOK (.ls (fin (6/5)) 50 : Policy (XR ℚ)) := ⟨6/5, rfl, by norm_num⟩
+example : PolOK (.rls (fin (9/10)) (fin 2) 50 : Policy (XR ℚ)) := ⟨⟨9/10, rfl, by norm_num⟩, ⟨2, rfl, by norm_num⟩⟩
+-- search loop: budget 3, nothing accepted → the last value tried, L₀γ² (not L₀γ³)
+example : searchLoop (fin 2 : XR ℚ) (fun _ L => L) (fun _ _ => false) 3 0 (fin 1) = some (fin 4, fin 4, 3) := by
+  simp [searchLoop, XR.mul]; norm_num
+-- accepted at the second trial
+example : searchLoop (2 : ℚ) (fun _ L => L) (fun L _ => decide (2 ≤ L)) 5 0 1 = some (2, 2, 2) := by
+  simp [searchLoop]
 
 end Scico.Props.C16
